@@ -734,7 +734,7 @@ OPTIONS:
 				return opts, err
 			}
 			flags := NgEpbFlags{}
-			flags.FromUint32(binary.LittleEndian.Uint32(r.currentOption.value))
+			flags.FromUint32(r.getUint32(r.currentOption.value))
 			opts.Flags = &flags
 		case ngOptionCodeEpbHash:
 			if err := r.checkOptionLength(1); err != nil {
@@ -750,19 +750,19 @@ OPTIONS:
 			if err := r.checkOptionLength(8); err != nil {
 				return opts, err
 			}
-			v := binary.LittleEndian.Uint64(r.currentOption.value)
+			v := r.getUint64(r.currentOption.value)
 			opts.DropCount = &v
 		case ngOptionCodeEpbPacketID:
 			if err := r.checkOptionLength(8); err != nil {
 				return opts, err
 			}
-			v := binary.LittleEndian.Uint64(r.currentOption.value)
+			v := r.getUint64(r.currentOption.value)
 			opts.PacketID = &v
 		case ngOptionCodeEpbQueue:
 			if err := r.checkOptionLength(4); err != nil {
 				return opts, err
 			}
-			v := binary.LittleEndian.Uint32(r.currentOption.value)
+			v := r.getUint32(r.currentOption.value)
 			opts.Queue = &v
 		case ngOptionCodeEpbVerdict:
 			if err := r.checkOptionLength(1); err != nil {
